@@ -35,7 +35,7 @@ for p in props:
 m = {
     'version': 1,
     'setup_cmd': './setup.sh',
-    'hooks': {'guard': 'verif', 'enable': 'go build -tags verif ./...  (hooks are comment-only contract files zz_contracts_verif.go, read by govc; they contain no executable code)',
+    'hooks': {'guard': 'verif', 'enable': 'go build -tags verif ./...  (hooks are the contract files zz_contracts_verif.go - comments only, read by govc - and the lemma files zz_lemmas_verif.go: small never-called Go functions that compose real functions so that a round trip becomes an ordinary postcondition; both are guarded by the build tag verif and are not part of a normal build)',
               'baseline_off_cmd': "cd /repo && go test -mod=mod -json -vet=off -count=1 -timeout 25m ./...",
               'source_commits': hooks, 'add_only': True},
     'engines': [{'name': 'govc', 'path': '/verif/engine', 'serves_properties': [c['property_id'] for c in checks],
